@@ -210,10 +210,13 @@ class Oracle:
         self.C = C
         self.inp = case_input
         self.in_envelope = True
+        self.variant = "plain"
 
     PER_KEY = {}
 
     def bad(self, key, what, expected=None, observed=None):
+        if self.in_envelope and self.variant != "plain":
+            key = "edge-value:" + key          # the failing case is one of the empty-string / "0" value variants
         if self.in_envelope:
             # core keeps the first 50 violations of a run: leave room for every failure class (first = smallest case)
             n = Oracle.PER_KEY.get(key, 0)
@@ -486,15 +489,22 @@ def systematic_cases():
     for cat in ("sig", "frame", "ecu"):
         for enum in (False, True):
             a = {"sig": "sS", "frame": "fS", "ecu": "eS"}[cat][:-1] + ("E" if enum else "S")
-            sdefault, sexpl, tother, bexpl = ("b", "c", "a", "a") if enum else ("2", "3", "1", "9")
             slist, tlist = ["a", "b", "c"], ["a", "b"]
-            for tstate in ("absent", "same", "different", "nodefault"):
+            # edge-of-range attribute VALUES: the empty string (BA_DEF_DEF_ "X" "") and "0" are values like any other - they are
+            # not None, so "has a value" must not be decided by truthiness anywhere on the way
+            variants = [("plain", ("b", "c", "a", "a") if enum else ("2", "3", "1", "9"))]
+            if not enum:
+                variants += [("empty-source-default", ("", "3", "1", "9")), ("empty-target-default", ("2", "3", "", "9")),
+                             ("empty-explicit", ("2", "", "1", "")), ("zero-text", ("0", "3", "1", "0"))]
+            for variant, (sdefault, sexpl, tother, bexpl) in variants:
+             for tstate in ("absent", "same", "different", "nodefault"):
                 for sstate in ("default", "explicit", "novalue"):
                     for byst in ("default", "explicit"):
                         # frame/signal NAMES are independent of identifiers: the target's own frame may carry the name of the
                         # copied frame (and an equally named signal) under another id; lookups by name must not reach it
-                        for pre_a, names in ((False, "distinct"), (True, "distinct"), ("explicit", "distinct"),
-                                             (False, "same-frame-name"), (False, "same-frame-and-signal-name")):
+                        for pre_a, names in (((False, "distinct"), (True, "distinct"), ("explicit", "distinct"),
+                                              (False, "same-frame-name"), (False, "same-frame-and-signal-name"))
+                                             if variant == "plain" else ((False, "distinct"),)):
                             src = empty_desc()
                             sat = [[a, sexpl]] if sstate == "explicit" else []
                             src["defs"][cat].append([a, defstr(a, slist), None if sstate == "novalue" else sdefault])
@@ -538,7 +548,9 @@ def systematic_cases():
                                 cell = "%s/%s/tgt-%s/src-%s/byst-%s%s%s" % (cat, "ENUM" if enum else "STRING", tstate, sstate, byst,
                                                                             "/same-named-ecu" if pre_a else "",
                                                                             "" if names == "distinct" else "/" + names)
-                                cases.append(dict(stream="systematic", cell=cell, target=tgt, history=[(o[0], srcs)]))
+                                if variant != "plain":
+                                    cell += "/" + variant
+                                cases.append(dict(stream="systematic", cell=cell, variant=variant, target=tgt, history=[(o[0], srcs)]))
     return cases
 
 
@@ -555,7 +567,7 @@ def gen_matrix(rng, shared=False, malformed=False, ecu_pool=("E0", "E1", "E2", "
                     if malformed and rng.random() < 0.3:
                         ds = "STRING"            # equal name, other kind: AttributeError path
                 else:
-                    dv = rng.choice([None, "1", "2", "3"])
+                    dv = rng.choice([None, "1", "2", "3", "", "0"] if kind_of(a) == "STRING" else [None, "1", "2", "3", "0"])
                     ds = defstr(a)
                 d["defs"][cat].append([a, ds, dv])
 
@@ -563,12 +575,12 @@ def gen_matrix(rng, shared=False, malformed=False, ecu_pool=("E0", "E1", "E2", "
         out = []
         for a in list(ATTRS[cat]) + (SHARED if shared else []):
             if rng.random() < 0.3:
-                out.append([a, rng.choice(["a", "b", "c", "d"]) if kind_of(a) == "ENUM" else rng.choice(["1", "2", "3", "7"])])
+                out.append([a, rng.choice(["a", "b", "c", "d"]) if kind_of(a) == "ENUM" else rng.choice(["1", "2", "3", "7", ""] if kind_of(a) == "STRING" else ["1", "2", "3", "7", "0"])])
         rng.shuffle(out)
         return out
     for n in ecu_pool:
         if rng.random() < 0.6:
-            d["ecus"].append([n, rng.choice([None, "c" + n]), attrs_for("ecu")])
+            d["ecus"].append([n, rng.choice([None, "c" + n, ""]), attrs_for("ecu")])
     rng.shuffle(d["ecus"])
     ids = [(0x10, False), (0x11, False), (0x12, False), (0x10, True), (0x18FEF100, True)]
     rng.shuffle(ids)
@@ -717,7 +729,8 @@ def shared_name_probe(chk, C, cp):
 def run(chk):
     chk.rule = ("systematic stream: every cell of the attribute rule (category ecu/frame/signal x STRING/ENUM x definition in the target "
                 "absent/same default/different default/no default x source explicit/default/no value x bystander explicit/default x "
-                "same-named ECU already in the target, and the target's frame carrying the NAME of the copied frame / also an equally named "
+                "same-named ECU already in the target, STRING values also the empty string / \"0\" as source default, target default or explicit value "
+                "(own violation keys edge-value:*), and the target's frame carrying the NAME of the copied frame / also an equally named "
                 "signal under another identifier) under 9 copy requests (frame by id, merge of one source, merge of two sources with the "
                 "same frame and signal names under different ids and different defaults, signal, ECU, ECU with frames "
                 "rx/tx/both, direct or not, glob '*'); random stream (frame names from a pool of 3 independent of ids, signal names from a pool of 4): target and 1..4 sources drawn from small pools of ids, ECU names, "
@@ -754,6 +767,12 @@ def run(chk):
                    history=[dict(op=op, sources=srcs) for op, srcs in case["history"]])
         orc = Oracle(chk, C, inp)
         orc.in_envelope = case["stream"] in ("systematic", "random")
+        orc.variant = case.get("variant", "plain")
+        if orc.variant != "plain":
+            chk.count("edge-value-variant-" + orc.variant)
+        elif case["stream"] != "systematic" and any(d[2] == "" for m in [case["target"]] + [x for _, ss in case["history"] for x in ss]
+                                                    for c in CATS for d in m["defs"][c]):
+            chk.count("random-case-with-empty-string-default")
         groups = nf_matrix(I, tdb) + [[0]]
         nf0 = list(groups)
         results = []
